@@ -205,10 +205,14 @@ Definition flag (n : note) (w : world) : world :=
 Definition flag_if (c : bool) (n : note) (w : world) : world := if c then flag n w else w.
 
 Inductive mgr := TJ | IJG.
-Record cfg := mkCfg { cf_mgr : mgr; cf_clr : bool (* the `else dest->newbuffer = NULL` rule is present *) }.
-Definition cfg_tj : cfg := mkCfg TJ tj_clears_newbuffer.
-Definition cfg_tj_old : cfg := mkCfg TJ false.
-Definition cfg_ijg : cfg := mkCfg IJG true.
+Record cfg := mkCfg {
+  cf_mgr : mgr;
+  cf_clr : bool;     (* the `else dest->newbuffer = NULL` rule is present (fix of F2) *)
+  cf_zfix : bool }.  (* the allocation branch is skipped for a reused buffer with *outsize = 0 *)
+Definition cfg_tj : cfg := mkCfg TJ tj_clears_newbuffer tj_zero_size_keeps_reused.
+Definition cfg_tj_old : cfg := mkCfg TJ false tj_zero_size_keeps_reused.       (* before the F2 fix *)
+Definition cfg_tj_oldzero : cfg := mkCfg TJ tj_clears_newbuffer false.         (* before the zero-size fix *)
+Definition cfg_ijg : cfg := mkCfg IJG true true.
 
 Definition out_buf_size (m : mgr) : Z := match m with TJ => tj_output_buf_size | IJG => ijg_output_buf_size end.
 Definition growth (m : mgr) : Z := match m with TJ => tj_growth | IJG => ijg_growth end.
@@ -218,15 +222,15 @@ Definition growth (m : mgr) : Z := match m with TJ => tj_growth | IJG => ijg_gro
 Definition dest_new : dest := mkD 0 0 0 false 0 0 0.
 
 (* jpeg_mem_dest_tj(cinfo, &w_buf, &w_size, alloc) -- returns None on normal return *)
-Definition mem_dest_tj (clr : bool) (alloc : bool) (w : world) : world * option status :=
+Definition mem_dest_tj (clr zfix : bool) (alloc : bool) (w : world) : world * option status :=
   let d0 := match w_dest w with Some d => d | None => dest_new end in
   (* if (dest->buffer == *outbuffer && *outbuffer != NULL && alloc) reused = TRUE; else dest->newbuffer = NULL; *)
   let reused := (d_buffer d0 =? w_buf w) && negb (w_buf w =? 0) && alloc in
   let nb1 := if reused then d_newbuffer d0 else if clr then 0 else d_newbuffer d0 in
   (* dest->alloc = alloc; *)
   let d1 := mkD (d_buffer d0) (d_bufsize d0) nb1 alloc (d_next_base d0) (d_next_off d0) (d_free d0) in
-  (* if ( *outbuffer == NULL || *outsize == 0) *)
-  if (w_buf w =? 0) || (w_size w =? 0) then
+  (* if ( *outbuffer == NULL || ( *outsize == 0 && !reused))     [before the fix: ... || *outsize == 0] *)
+  if (w_buf w =? 0) || ((w_size w =? 0) && (if zfix then negb reused else true)) then
     if alloc then
       (* dest->newbuffer = *outbuffer = MALLOC(OUTPUT_BUF_SIZE); *outsize = OUTPUT_BUF_SIZE; *)
       let '(h1, a) := h_malloc (w_heap w) (out_buf_size TJ) Lib false in
@@ -252,7 +256,7 @@ Definition mem_dest_ijg (w : world) : world * option status :=
     (set_dest (mkD (w_buf w) (w_size w) 0 true (w_buf w) 0 (w_size w)) (set_heap h1 w), None).
 
 Definition mem_dest (c : cfg) (alloc : bool) (w : world) : world * option status :=
-  match cf_mgr c with TJ => mem_dest_tj (cf_clr c) alloc w | IJG => mem_dest_ijg w end.
+  match cf_mgr c with TJ => mem_dest_tj (cf_clr c) (cf_zfix c) alloc w | IJG => mem_dest_ijg w end.
 
 (* empty_mem_output_buffer: Some st = ERREXIT *)
 Definition empty_output_buffer (m : mgr) (w : world) (d : dest) : world * dest * option status :=
@@ -402,9 +406,10 @@ Definition pass_ok (c : cfg) (alloc : bool) (w : world) : bool :=
       ignored || ((0 <=? w_size w) && (w_size w <=? b_size b))
   end.
 
-(* hazard 2: the library takes the buffer for a reused one although *jpegSize = 0 sends it
-   down the allocation branch *)
+(* hazard 2 (only without the zero-size fix): the library takes the buffer for a reused one
+   although *jpegSize = 0 sends it down the allocation branch *)
 Definition zero_reuse (c : cfg) (alloc : bool) (w : world) : bool :=
+  negb (cf_zfix c) &&
   match cf_mgr c, w_dest w with
   | TJ, Some d => (d_buffer d =? w_buf w) && negb (w_buf w =? 0) && alloc && (w_size w =? 0)
   | _, _ => false
